@@ -32,7 +32,7 @@ fn alphabet(_plan: &str, _v: &str, t: Tier) -> Alphabet {
         sems: vec![Sem::Default],
         gc_kinds: vec![false, true],
         bursts: vec![],
-        align_bursts: false, eph_chains: if t == Tier::Thorough { vec![1, 2, 3] } else { vec![1, 3] },
+        refused_allocs: false, align_bursts: false, eph_chains: if t == Tier::Thorough { vec![1, 2, 3] } else { vec![1, 3] },
         two_mutators: false,
         pins: false,
         cross_writes: false,
